@@ -33,7 +33,7 @@ pub fn gen_sort_on_ref(seed: u64, k: u64) -> Value {
         sort: Some(vec!["parent".into(), "rank".into()]),
         unique_keys: false,
     };
-    let case = DirCase { seed: rng.next(), vstores: vec![], stores: vec![store], indexes: vec![IndexDef { name: "all".into(), store: 0, offset: 0, count: n as u32 }], defer: 0 };
+    let case = DirCase { seed: rng.next(), vstores: vec![], stores: vec![store], indexes: vec![IndexDef { name: "all".into(), store: 0, offset: 0, count: n as u32 }], defer: 0, free: 0 };
     let mut v = case.to_json();
     v["via"] = json!("mem");
     v["mode"] = json!("sort-on-ref");
@@ -102,7 +102,9 @@ pub fn gen(seed: u64, tier: Tier, k: u64) -> Value {
     ];
     // integers handed over as immediate values, deferred words, or a per-entry mix of both
     let defer = *rng.pick(&[0u8, 0, 1, 1, 2]);
-    let case = DirCase { seed: rng.next(), vstores: vec![indexed], stores: vec![store], indexes, defer };
+    // free data of the indexes (and of the directory pack when it is created bare): zero, or arbitrary bytes
+    let free = if rng.chance(1, 2) { rng.next() | 1 } else { 0 };
+    let case = DirCase { seed: rng.next(), vstores: vec![indexed], stores: vec![store], indexes, defer, free };
     let mut v = case.to_json();
     v["via"] = json!(if rng.chance(1, 2) { "file" } else { "mem" });
     v
